@@ -1033,6 +1033,31 @@ CONFIG['C03']['rule'] += (' Stream V (1 case in 20): the exported readers runtim
                           'formats; model readSingle / readCollection (last occurrence, then swag.SplitByFormat), theorem readSingle_is_last_occurrence.')
 CONFIG['C01']['rule'] += ' Parameter values are read the way handlers read them: RouteParams.Get(name) where the name is unique in the route.'
 CONFIG['C05']['rule'] += ' Parameter values of unique names are read through denco.Params.Get(name) (Mux stream: all; Lookup stream: every other one).'
+# generator dimensions added by the white-box audit (chosen per case from a checksum of the case's own fields, so cases replay identically)
+_WIDE = {
+ 'C01': 'seven ways to dispatch (NewRouter, RoutesHandler, ServeWithBuilder, RouteInfo/LookupRoute/AllowedMethods, DefaultRouter over a second RoutableAPI, NewRoutableContext+NewOperationExecutor, NewRoutableContextWithAnalyzedSpec); Debug on for 1 description in 8; query strings, absolute-form targets, method-override headers; warm-up requests; methods in any case incl. TRACE/PROPFIND; unclean base paths; 14 more value classes; dot-segment / case / escaped-slash path mutations',
+ 'C02': 'credentials through 12 authenticator constructors (APIKeyAuth[Ctx] header/query in any spelling, HttpAuthenticator, ScopedAuthenticator, AuthenticatorFunc, BearerAuth[Ctx], BasicAuth[Ctx], BasicAuthRealm); zero-valued principals; a second errors.Error implementation; security.Authorized(); five handler constructors; warm-up requests; up to 6 alternatives',
+ 'C03': 'query / form spellings, Content-Type with charset / upper case / quoted boundary, bodies of unknown length, forms pre-parsed by an upstream middleware (files spilled to disk), fully escaped path values; a method per declaration (forms also under GET/OPTIONS); four handler constructors; stale targets; a second multipart serialisation; odd names and texts',
+ 'C04': 'client constructors (New+Transport, NewWithClient, op.Client, EnableConnectionReuse), Submit through the tracing wrappers, contexts, Debug, DefaultAuthentication, scheme lists, static queries, a real httptest.Server for 1 case in 8; body values map/*map/RawMessage/zero struct, text as string/*string/Stringer, streams incl. *os.File; methods as the description spells them; 22 more status codes',
+ 'C05': 'other lookups on the same Router before, after and (1 case in 8) concurrently; Mux shorthands GET/POST/PUT/HEAD; Params.Get also for absent names; SizeHint presets; one nil-valued record per quarter of the tables; empty table, empty key, duplicate keys, placeholder-first keys, literals of ~270 and ~1025 repetitions, 100-300 keys; parameter texts of 260-280 bytes; C05DA: dump after lookups',
+ 'C06': 'wire-parsed requests (http.ReadRequest) for a quarter of the cases, chunked framing; one-byte / data+EOF / empty-first readers; consumes/produces declared on the operation, document-wide or both; Debug on; both entry points in either order, ContentType asked first, BindAndValidate asked twice; six handler constructors; methods in mixed case; stream R with seven methods and more parameter kinds',
+ 'C07': 'ParseAccept under other field names with decoys, nil Header map, wire-parsed requests, earlier negotiations on the same request; offers "", */*, text/*, capitals, q-parameters, lists of 5-12; q spellings 1.000/1./0./1.5/2/00.5; quoted parameters with escapes (closed, unclosed, ending in a backslash); lines of 8-37 ranges; totality stream T with valid dates and nil headers',
+ 'C08': 'other requests served first; six handler constructors; NewRequest / httptest / wire-parsed requests; equivalent Authorization spellings; a response writer freezing its header at the first write; Debug on; BasicAuth / BasicAuthCtx / BasicAuthRealmCtx; middleware.Error with header maps and odd payloads; more plain values; PATCH and OPTIONS; the error responder set before or after the handler exists',
+ 'C09': 'variant bits: NewContext vs NewRoutableContext, debug logging, server-shaped requests (RawPath, Content-Length, context values, chunked body reads), a foreign request through all accessors between instructions; second and third askers with their own routes; non-string and zero principals; PATCH(204) and HEAD operations; stream R over six handler constructors',
+ 'C10': 'four ways per case (CreateHttpRequest on a fresh or used Runtime, Submit through Runtime.Transport, NewWithClient+Submit with op.Client/op.Context; query credentials from AuthInfo or DefaultAuthentication) that must agree; any of the 256 bytes in values; names differing in case; placeholders in the base path; seven host spellings',
+ 'C11': 'three ways to the request (fresh Runtime, long-lived Runtime, Submit); media type from ConsumesMediaTypes / DefaultMediaType / a list with empty entries; auth as AuthInfo or DefaultAuthentication; writer order reversed; everything set twice; payload readers with small reads, positioned, *bytes.Buffer/*strings.Reader past a prefix, real files; uploads with Len/Seek/WriteTo, real positioned files, failing Close',
+ 'C12': 'stream D through four ways to the draining body; stream F: op.Client, a Runtime that has completed an exchange before, DefaultAuthentication, SetTimeout not called for the default, value-carrying contexts, seven methods, buffered payload kinds, statuses 200-503, Content-Type spellings; long (filled-buffer) responses; one-shot source errors; Debug-dump plans',
+ 'C13': 'flag letters for seven methods, bodies of unknown length / one byte per read / data+EOF / nil, EnableConnectionReuse, SetResponseReader, SetDebug, tracing wrappers, nil Transport, nil registry; any status 0..999; race stream with GOMAXPROCS 1/2/4, Debug, default media type, shared/private clients and contexts',
+ 'C14': 'methods HEAD/OPTIONS/TRACE/QUERY and lower-case spellings; a third of the requests through Submit into a recording RoundTripper; nested Compose; writers and authenticators already used once; six kinds of foreign parameter; static query parameters (base path, pattern, both) clashing with query credentials; context readers cross-checked',
+ 'C15': 'codecs already used; ClosesStream twice; real readers/writers (bytes.Reader, strings.Reader, bytes.Buffer, bufio.Reader, *os.File, strings.Builder); nil vs empty slices; stream J with reuse, Write-only writers, chunking readers, shapes map/list/scalar/pdoc/wrap/nmap/hdoc; stream Y with shorter/longer/empty later payloads; source kinds answering MarshalText/Error()/String() differently; contents opening with a byte order mark',
+ 'C16': 'option lists with zero-valued options left out, given earlier with other values, permuted, ClosesStream twice; real readers and sinks incl. *os.File; more interface combinations; nil tables; named destination types; skip counts up to ~10^6; texts opening with U+FEFF; storage shared beyond a record\'s length looked for',
+ 'C17': '15 method spellings; nil Header map, several Content-Length lines; TransferEncoding variants; bare or fully populated requests (Expect, Accept…); GetBody set; WithContext/Clone between ops; bodies with Len(), struct-of-Reader-and-Closer, NoBody, NopCloser; wrapped / net-like terminal errors; odd read buffers; io.Copy drains; warm-up and twin requests; lengths up to 2^63-1, malformed length headers',
+ 'C18': 'key files PKCS#1/SEC1/PKCS#8 with bag attributes and CRLF; noisy certificate and CA files; unreadable = missing / directory / NUL in the name; garbage in six forms; loaded certificates and keys as same pointer / copies / Raw-only; unsupported keys in six forms; invalid and incomplete RSA/EC keys (F18b); pools built three ways; earlier calls with other options; server names in other case, IP literals, IDN, 254 bytes',
+ 'C19': 'security definitions apiKey(header/query)/basic/oauth2 with scopes; descriptions with host, schemes, tags, extensions; JSON defaults flipped in several orders; noise on the API object; Register* calls in any order of kinds, in two phases with Validate in between; six handler entry points; form media types in the pool; near-miss superfluous registrations and substitutions; 3-4 alternatives',
+ 'C20': 'requests with query, fragment, RawPath and more headers; 0-2 warm-up requests; EnsureDefaults run beforehand; all asset locations set or defaulted; hostile values in every URL option; nil / over-long / indented / 3-73 KB documents; Serve and ServeWithBuilder; WithTemplate; a nil Builder; methods PATCH/TRACE/CONNECT/""',
+}
+for _k, _v in _WIDE.items():
+    CONFIG[_k]['rule'] = CONFIG[_k].get('rule', '') + ' WIDENED (white-box audit): ' + _v + '.'
 # sub-checks: flows modelled under another property, run (and reported) under this one as well
 CONFIG['C04']['also'] = ['C03', 'C13']   # typed parameters: what the handler gets for a number/integer text is C03's model (C04-m5); the response's way to the caller's reader is C13's (C04-m8)
 CONFIG['C01']['also'] = ['C09']   # the same dispatch under concurrent requests (shared lookup state) is C09's stream R / -race tier (C01-m7)
